@@ -6,7 +6,7 @@ C08 - bit-field keys are collision-free.  Property theorems about the model
 `assign_fields` (successful or raising half-way) on a `BitField(L)`, with *arbitrary*
 instance values at every step (more general than the instances the code can create).
 -/
-import RigModel.Lemmas.C08Complete
+import RigModel.Lemmas.C08Spare
 set_option linter.unusedSimpArgs false
 set_option linter.unusedVariables false
 
@@ -41,6 +41,9 @@ inductive Reachable (L : Nat) : State → Prop
       Reachable L st → addField st fv ident length startAt tags = .ok st' → Reachable L st'
   | call {st st' fv fv' kw} : Reachable L st → call st fv kw = .ok (st', fv') → Reachable L st'
   | assign {st} : Reachable L st → Reachable L (assignFieldsP st).1
+  /-- model-only: before an `assign_fields`, any set of `max_value`s may be marked as "the floating-point length has
+  a spare bit" (the driver marks those the implementation shows; the mark only counts from `SPARE_FROM` on) -/
+  | spare {st} (g : Nat → Bool) : Reachable L st → Reachable L { st with entries := markSpare g st.entries }
 
 theorem reachable_inv {L : Nat} {st : State} (h : Reachable L st) : Inv st ∧ st.length = L := by
   induction h with
@@ -48,6 +51,7 @@ theorem reachable_inv {L : Nat} {st : State} (h : Reachable L st) : Inv st ∧ s
   | add _ h ih => obtain ⟨a, b⟩ := inv_addField ih.1 h; exact ⟨a, b.trans ih.2⟩
   | call _ h ih => obtain ⟨a, b⟩ := inv_call ih.1 h; exact ⟨a, b.trans ih.2⟩
   | assign _ ih => obtain ⟨a, b⟩ := inv_assignFields ih.1; exact ⟨a, b.trans ih.2⟩
+  | spare g _ ih => exact ⟨inv_markSpare g ih.1, ih.2⟩
 
 /-! ### clause 1: co-presentable fields are disjoint and inside the bit field -/
 
@@ -86,6 +90,26 @@ theorem call_rejects_wide {st st' : State} {fv fv' : Reqs} {kw : List (Ident × 
     (h : call st fv kw = .ok (st', fv')) :
     ∀ iv ∈ fv', ∃ e, getField st.entries iv.1 fv' = some e ∧ ∀ len, e.field.length = some len → iv.2 < 2 ^ len :=
   call_values_checked h
+
+/-- **auto_length_covers.** The length `assign_fields` chooses for a field without a given length - the exact bit
+length of `max_value`, or (only for `max_value ≥ SPARE_FROM = 2^44`, where the implementation's double-precision
+logarithm may round up) one bit more - always covers `max_value`, and is never more than one bit above the exact
+bit length.  The correspondence demands exactly this of the implementation: equal to the exact bit length below
+2^44, and one of the two values from there on (a narrower field is reported by the `wide` oracle). -/
+theorem auto_length_covers (f : Field) (h : f.length = none) :
+    f.maxValue < 2 ^ f.chosenLen ∧ autoLen f.maxValue ≤ f.chosenLen ∧ f.chosenLen ≤ autoLen f.maxValue + 1 ∧
+      (f.maxValue < SPARE_FROM → f.chosenLen = autoLen f.maxValue) := by
+  refine ⟨chosenLen_wide_of_none h, ?_, ?_, ?_⟩ <;>
+    (unfold Field.chosenLen; rw [h]; simp only; split)
+  · omega
+  · omega
+  · omega
+  · omega
+  · rename_i hsp
+    intro hlt
+    simp only [Bool.and_eq_true, decide_eq_true_eq] at hsp
+    omega
+  · intro _; rfl
 
 /-! ### explicit definitions that overlap or overflow are rejected -/
 
@@ -194,6 +218,7 @@ theorem reachable_inv2 {L : Nat} {st : State} (h : Reachable L st) : Inv2 st := 
   | add hr h ih => exact addField_inv2 (reachable_inv hr).1 ih h
   | call _ h ih => exact call_inv2 ih h
   | assign _ ih => exact assignFieldsP_inv2 ih
+  | spare g _ ih => exact inv2_markSpare g ih
 
 /-- **tree_structure.** Over every history: every child key of the tree is a non-empty tuple of (identifier, value)
 pairs whose identifiers are fields of the parent node (so inner nodes are never empty and a field's requirements
@@ -265,6 +290,8 @@ inductive ReachableI (L : Nat) : State → List Reqs → Prop
   | call {st st' insts fv fv' kw} : ReachableI L st insts → fv ∈ insts → call st fv kw = .ok (st', fv') →
       ReachableI L st' (insts ++ [fv'])
   | assign {st insts} : ReachableI L st insts → ReachableI L (assignFieldsP st).1 insts
+  | spare {st insts} (g : Nat → Bool) : ReachableI L st insts →
+      ReachableI L { st with entries := markSpare g st.entries } insts
 
 theorem reachableI_reachable {L : Nat} {st : State} {insts : List Reqs} (h : ReachableI L st insts) :
     Reachable L st := by
@@ -273,6 +300,7 @@ theorem reachableI_reachable {L : Nat} {st : State} {insts : List Reqs} (h : Rea
   | add _ h ih => exact Reachable.add ih h
   | call _ _ h ih => exact Reachable.call ih h
   | assign _ ih => exact Reachable.assign ih
+  | spare g _ ih => exact Reachable.spare g ih
 
 /-- **instance invariant**: every value of every instance names a field present in that instance and is at most
 that field's `max_value` -/
@@ -288,6 +316,7 @@ theorem reachableI_instOK {L : Nat} {st : State} {insts : List Reqs} (h : Reacha
     · exact hold fv (ih fv hfv)
     · simp at hfv; subst hfv; exact hnew
   | assign _ ih => exact fun fv hfv => assignFieldsP_instOK (ih fv hfv)
+  | spare g _ ih => exact fun fv hfv => instOK_markSpare g (ih fv hfv)
 
 /-- **values_fit.** Over every history, every value of every instance fits the length of the field holding it
 (whenever that length is known): the `ValuesFit` hypothesis of `readback` / `orthogonal` holds for every instance
@@ -471,9 +500,9 @@ example : ∃ st fv, Reachable 8 st ∧ getValue st.entries fv none none = .ok 2
     (startAt := some 0) (tags := []) (Reachable.add (fv := []) (ident := "a") (length := some 3) (startAt := none)
     (tags := ["t"]) Reachable.init rfl) rfl), by rfl, by rfl, ?_⟩
   intro e he x l hx hl
-  have : e ∈ [(⟨[], "a", ⟨some 3, some 2, ["t"], 1⟩⟩ : Entry), ⟨[], "b", ⟨some 2, some 0, [], 1⟩⟩] := by
-    have hd : enabledFields (assignFieldsP ⟨8, [⟨[], "a", ⟨some 3, none, ["t"], 1⟩⟩, ⟨[], "b", ⟨some 2, some 0, [], 1⟩⟩]⟩).1.entries
-        [("a", 5), ("b", 2)] = [⟨[], "a", ⟨some 3, some 2, ["t"], 1⟩⟩, ⟨[], "b", ⟨some 2, some 0, [], 1⟩⟩] := by decide
+  have : e ∈ [(⟨[], "a", ⟨some 3, some 2, ["t"], 1, false⟩⟩ : Entry), ⟨[], "b", ⟨some 2, some 0, [], 1, false⟩⟩] := by
+    have hd : enabledFields (assignFieldsP ⟨8, [⟨[], "a", ⟨some 3, none, ["t"], 1, false⟩⟩, ⟨[], "b", ⟨some 2, some 0, [], 1, false⟩⟩]⟩).1.entries
+        [("a", 5), ("b", 2)] = [⟨[], "a", ⟨some 3, some 2, ["t"], 1, false⟩⟩, ⟨[], "b", ⟨some 2, some 0, [], 1, false⟩⟩] := by decide
     exact hd ▸ he
   simp only [List.mem_cons, List.mem_nil_iff, or_false] at this
   rcases this with rfl | rfl
@@ -513,5 +542,11 @@ example : ∃ st, Reachable 5 st ∧ st.entries.length = 3 ∧ floatingFitsB 5 s
     (Reachable.add (fv := [("a", 1)]) (ident := "b") (length := some 3) (startAt := none) (tags := [])
       (Reachable.add (fv := []) (ident := "a") (length := some 2) (startAt := none) (tags := [])
         Reachable.init rfl) rfl) rfl, ?_, ?_, ?_, ?_⟩ <;> decide
+
+/-- non-vacuity of the spare-bit rule: for max_value 2^48 - 1 (where CPython's `int(log(v, 2)) + 1` gives 49) the marked
+field gets 49 bits, the unmarked one the exact 48; below 2^44 the mark has no effect -/
+example : Field.chosenLen ⟨none, none, [], 2 ^ 48 - 1, true⟩ = 49 ∧ Field.chosenLen ⟨none, none, [], 2 ^ 48 - 1, false⟩ = 48 ∧
+    Field.chosenLen ⟨none, none, [], 2 ^ 31 - 1, true⟩ = 31 := by
+  refine ⟨?_, ?_, ?_⟩ <;> decide +kernel
 
 end Rig.C08
